@@ -33,16 +33,18 @@ META = {
     "explanation": (
         "Every dataclass field of MdParserConfig has a validator; for fields validated by the dc_validators combinators the "
         "accepted shape (instance_of / optional / in_ / deep_iterable / deep_mapping, whose own bodies are re-verified) agrees "
-        "with the annotation including optionality (R1). A validator that stores a normalised value on the instance has no raise "
-        "or validator call reachable after the store (R2). After validate_field(obj, f, v) no store of the raw v (or a value built "
+        "with the annotation including optionality (R1). A validator that stores on the instance and can still reject afterwards is "
+        "tolerated only while every caller that survives the rejection re-stores a clean value in its handler - a failing constructor discards "
+        "the instance (R2). After validate_field(obj, f, v) no store of the raw v (or a value built "
         "from it) to obj follows in the same iteration unless guarded by a metadata flag carried only by non-coercing fields (R3). "
         "Writes to config objects happen only in validators (own instance), in merge_file_level (on the copy taken before the loop; "
         "the global parameter is never written or validated against; merged dicts are new dicts with the front-matter operand last) "
         "and in a mutate+restore-in-finally bracket (R4). The handler of the validation try emits exactly one MD_TOPMATTER warning and "
-        "reaches the next iteration without storing the rejected value (R5). __post_init__ validates every field, copy re-validates, "
+        "reaches the next iteration without storing the rejected value, and re-stores a clean value on every path when the raw value was stored before validation or a validator may store before rejecting (R5). __post_init__ validates every field, copy re-validates, "
         "both front ends build the global config through the constructor inside a handler covering TypeError/ValueError with a default "
         "fallback, and registering/reading loops use the same omit filter (R6). No raise-condition conjoins `x is not a T` with a "
-        "type test on x's members (R7)."
+        "type test on x's members (R7). In validators the bare truthiness of the validated value (or of an item of it) never selects the accepting "
+        "path unless an isinstance test on it dominates (R8: `if not value: return` where `value is None` was meant)."
     ),
     "not_decided": (
         "normal-form equality of arbitrary value spellings; value ranges (words_per_minute: 0); the bodies of the custom check_* "
@@ -438,10 +440,19 @@ def verify_combinators(corpus: Corpus) -> list[str]:
             cfg = get_cfg(f)
             rets = [n for n in f.local_nodes() if isinstance(n, ast.Return)]
             ok_ret = rets and all(
-                _guard_has(cfg, r, lambda t: isinstance(t, ast.Compare) and isinstance(t.ops[0], ast.Is) and unparse(t.left) == val and unparse(t.comparators[0]) == "None", True) for r in rets
+                _guard_has(cfg, r, lambda t: isinstance(t, ast.Compare) and isinstance(t.ops[0], ast.Is) and unparse(t.left) == val and unparse(t.comparators[0]) == "None", True)
+                or _guard_has(cfg, r, lambda t: isinstance(t, ast.Name) and t.id == val, False)  # truthiness form: judged (VIOLATION) by R8
+                for r in rets
             )
             calls = _calls_param(f, sub)
-            ok_call = len(calls) == 1 and len(calls[0].args) >= 3 and unparse(calls[0].args[2]) == val and not [g for g in cfg.guards(cfg.stmt_of(calls[0])) if g[1]]
+            ok_call = len(calls) == 1 and len(calls[0].args) >= 3 and unparse(calls[0].args[2]) == val and not [g for g in cfg.guards(cfg.stmt_of(calls[0])) if g[1] and not (isinstance(g[0], ast.Name) and g[0].id == val)]
+            if not ok_ret and not rets and len(calls) == 1 and len(calls[0].args) >= 3 and unparse(calls[0].args[2]) == val:
+                # nested form: `if value is not None: validator(inst, field, value)`
+                gs = cfg.guards(cfg.stmt_of(calls[0]))
+                if len(gs) == 1 and isinstance(gs[0][0], ast.Compare) and unparse(gs[0][0].left) == val and unparse(gs[0][0].comparators[0]) == "None" and (
+                    (isinstance(gs[0][0].ops[0], ast.Is) and not gs[0][1]) or (isinstance(gs[0][0].ops[0], ast.IsNot) and gs[0][1])
+                ):
+                    ok_ret = ok_call = True
             if not (ok_ret and ok_call):
                 probs.append("optional._validator is not `if value is None: return; validator(inst, field, value)`")
         # in_
@@ -679,55 +690,127 @@ def _is_validator_call(corpus: Corpus, f: FunctionInfo, n: ast.Call) -> bool:
     return callee is not None and callee.fq in custom_validators(corpus)
 
 
-@rule("C13.R2")
-def r2_commit_after_validate(corpus: Corpus, rep: Report, tier: str):
-    rep.rule("C13.R2", "in a validator that stores a normalised value on the instance, no raise / validator call is reachable after the store")
+def rejection_after_store(corpus: Corpus, f: FunctionInfo):
+    """(store node, rejecting node, kind) when validator ``f`` can still reject after storing on its instance, else None."""
+    stores = store_events(corpus, f)
+    if not stores:
+        return None
+    cfg = get_cfg(f)
+    for s in stores:
+        st = cfg.stmt_of(s)
+        for n in cfg.reachable_from(st):
+            if not isinstance(n, ast.stmt) or (n is st and cfg.loops.get(st) is None):
+                continue
+            if isinstance(n, ast.Raise):
+                return (s, n, "raise")
+            hdr_only = isinstance(n, (ast.If, ast.While, ast.For, ast.With, ast.Try))
+            exprs = [n.test] if isinstance(n, (ast.If, ast.While)) else [n.iter] if isinstance(n, ast.For) else [i.context_expr for i in n.items] if isinstance(n, ast.With) else [] if hdr_only else [n]
+            for e in exprs:
+                for c in ast.walk(e):
+                    if isinstance(c, ast.Call) and c is not s and _is_validator_call(corpus, f, c):
+                        return (s, c, "validator call")
+    return None
+
+
+def validator_candidates(corpus: Corpus) -> dict[str, FunctionInfo]:
     cands: dict[str, FunctionInfo] = dict(custom_validators(corpus))
     for m in (corpus.mod(MAIN), corpus.mod(DCV)):
         for f in m.functions.values():
             if not f.is_lambda and f.cls is None and len(f.params) >= 3 and f.name not in ("validate_field", "validate_fields", "merge_file_level"):
                 cands.setdefault(f.fq, f)
-    n_storing = 0
-    for fq, f in sorted(cands.items()):
+    return cands
+
+
+def _enclosing_try(call: ast.AST) -> ast.Try | None:
+    node: ast.AST = call
+    for a in ancestors(call):
+        if isinstance(a, (ast.FunctionDef, ast.AsyncFunctionDef, ast.Lambda)):
+            return None
+        if isinstance(a, ast.Try) and a.handlers and any(node is s for s in a.body):
+            return a
+        node = a
+    return None
+
+
+def catching_callers(corpus: Corpus) -> list[tuple[FunctionInfo, ast.Call, ast.ExceptHandler, bool, str]]:
+    """Call sites that apply validators to an object and survive a rejection: (function, call, handler,
+    restores?, why).  ``restores`` = every path from the handler to the code that goes on using the object
+    passes a store of a value that does not derive from the rejected one."""
+
+    def build():
+        out = []
+        dcv = corpus.mod(DCV).name
+        for f in corpus.all_functions():
+            if f.is_lambda or f.module.name == dcv:
+                continue
+            for n in f.local_nodes():
+                if not (isinstance(n, ast.Call) and dotted(n.func)):
+                    continue
+                full = f.module.resolve(dotted(n.func))
+                if full == f"{dcv}.validate_fields":
+                    if f.name != "__post_init__" and _enclosing_try(n) is not None:
+                        raise Unsupported(f"{f.fq} calls validate_fields inside a try on an existing object")
+                    continue
+                if full != f"{dcv}.validate_field":
+                    continue
+                tr = _enclosing_try(n)
+                if tr is None:
+                    continue  # the rejection leaves the function; the object under validation is dropped with it
+                obj, fieldvar, val = _vf_args(n)
+                raw, unknown = taint(f, val)
+                cfg = get_cfg(f)
+                hdr = cfg.loops.get(cfg.stmt_of(n))
+                clean = set()
+                for st in obj_stores(f, obj):
+                    if st.value is not None and _expr_kind(st.value, raw, unknown) == "clean":
+                        clean.add(cfg.stmt_of(st.node))
+                for h in tr.handlers:
+                    stops = [x for x in ((hdr,) if hdr is not None else ()) + ("EXIT",)]
+                    unrestored = any(cfg.paths_avoiding(("H", h), stop, lambda x: x in clean) for stop in stops)
+                    out.append((f, n, h, not unrestored, "a clean value is re-stored on every path out of the handler" if not unrestored else "some path out of the handler stores nothing"))
+        return out
+
+    return corpus.cache("c13-catching-callers", build)
+
+
+@rule("C13.R2")
+def r2_commit_after_validate(corpus: Corpus, rep: Report, tier: str):
+    rep.rule(
+        "C13.R2",
+        "a validator that stores on the instance and can still reject afterwards is only tolerable where every caller that survives the rejection re-stores a clean value "
+        "(constructor: the instance is discarded; merge_file_level: the handler restores)",
+    )
+    callers = catching_callers(corpus)
+    for fq, f in sorted(validator_candidates(corpus).items()):
         stores = store_events(corpus, f)
         if not stores:
             continue
-        n_storing += 1
         rep.saw_function(fq)
-        cfg = get_cfg(f)
-        bad = None
-        for s in stores:
-            st = cfg.stmt_of(s)
-            reach = cfg.reachable_from(st)
-            for n in reach:
-                if not isinstance(n, ast.stmt) or (n is st and cfg.loops.get(st) is None):
-                    continue
-                if isinstance(n, ast.Raise):
-                    bad = (s, n, "raise")
-                    break
-                hdr_only = isinstance(n, (ast.If, ast.While, ast.For, ast.With, ast.Try))
-                exprs = [n.test] if isinstance(n, (ast.If, ast.While)) else [n.iter] if isinstance(n, ast.For) else [i.context_expr for i in n.items] if isinstance(n, ast.With) else [] if hdr_only else [n]
-                for e in exprs:
-                    for c in ast.walk(e):
-                        if isinstance(c, ast.Call) and c is not s and _is_validator_call(corpus, f, c):
-                            bad = (s, c, "validator call")
-                if bad:
-                    break
-            if bad:
-                break
-        k = f"{fq}|no rejection after the store"
-        if bad:
-            s, n, what = bad
+        bad = rejection_after_store(corpus, f)
+        k = f"{fq}|no observable rejection after the store"
+        if not bad:
+            rep.ok("C13.R2", k, f.module.site(stores[0]), f"{len(stores)} store(s), nothing can reject afterwards")
+            continue
+        s, n, what = bad
+        keep = [(cf, c, h) for cf, c, h, restores, _ in callers if not restores]
+        if not keep:
+            rep.ok(
+                "C13.R2",
+                k,
+                f.module.site(s),
+                f"`{short(n, 50)}` ({what}) can reject after the store, unobservably: a failing constructor discards the instance and "
+                f"{', '.join(sorted({cf.qualname for cf, *_ in callers})) or 'no caller'} re-stores a clean value in the handler",
+            )
+        else:
+            cf, c, h = keep[0]
             rep.violation(
                 "C13.R2",
                 k,
                 f.module.site(s),
-                f"`{short(s, 60)}` commits the value on the instance, but `{short(n, 70)}` ({what}, line {n.lineno}) can still reject it afterwards: "
-                "merge_file_level reports the value as invalid and the copy keeps it",
-                [f"store {f.module.site(s)}", f"{what} {f.module.site(n)}"],
+                f"`{short(s, 60)}` commits the value on the instance, `{short(n, 70)}` ({what}, line {n.lineno}) can still reject it, and the handler "
+                f"`except {unparse(h.type) if h.type else ''}` in {cf.qualname} keeps the object without re-storing the field: the value is reported as invalid and applied",
+                [f"store {f.module.site(s)}", f"{what} {f.module.site(n)}", f"handler {cf.module.site(h)}"],
             )
-        else:
-            rep.ok("C13.R2", k, f.module.site(stores[0]), f"{len(stores)} store(s), nothing can reject afterwards")
     rep.expect_min("C13.R2", 3, "four coercing validators on the pinned tree")
 
 
@@ -1007,10 +1090,22 @@ def r5_invalid_value_path(corpus: Corpus, rep: Report, tier: str):
                         raise Unsupported(f"{mod.site(s.node)}: stored value passes through an unknown call")
                     if kind == "raw":
                         problems.append(f"`{short(s.node, 60)}` (line {s.node.lineno}) stores the rejected value after the handler ran")
+            # if the rejected value can already be on the object when the handler starts, the handler must replace it
+            cst = cfg.stmt_of(call)
+            pre = [s for s in obj_stores(mfl, obj) if s.value is not None and _expr_kind(s.value, raw, unknown) == "raw" and _reach_same_iteration(cfg, cfg.stmt_of(s.node), cst) and not _reach_same_iteration(cfg, cst, cfg.stmt_of(s.node))]
+            hazard = [vf.qualname for vf in validator_candidates(corpus).values() if rejection_after_store(corpus, vf)]
+            note = "the rejected value is never on the object"
+            if pre or hazard:
+                restored = [r for cf, c, hh, r, _ in catching_callers(corpus) if hh is h]
+                reason = f"`{short(pre[0].node, 50)}` stores the raw value before it is validated" if pre else f"{', '.join(hazard)} can store before rejecting"
+                if restored and all(restored):
+                    note = f"{reason}; the handler re-stores a clean value on every path"
+                else:
+                    problems.append(f"{reason}, and some path from the handler to the next update stores nothing over it: the rejected value stays in effect")
             if problems:
                 rep.violation("C13.R5", k, site, "; ".join(problems))
             else:
-                rep.ok("C13.R5", k, site, "one MD_TOPMATTER warning, then the next update; the rejected value is not stored")
+                rep.ok("C13.R5", k, site, f"one MD_TOPMATTER warning, then the next update; {note}")
     rep.expect_min("C13.R5", 1, "the handler of the validation try in merge_file_level")
 
 
@@ -1119,6 +1214,93 @@ def r7_short_circuit_consistency(corpus: Corpus, rep: Report, tier: str):
                 else:
                     rep.ok("C13.R7", k, m.site(r))
     rep.expect_min("C13.R7", 15, "guarded raise statements in config/main.py and dc_validators.py (25 on the pinned tree)")
+
+
+# ---------------------------------------------------------------------------
+# R8 truthiness standing in for a None / type test
+
+
+def _subjects(f: FunctionInfo) -> set[str]:
+    """The validated value and the names bound to its parts (loop targets over it)."""
+    subj = {f.params[2]}
+    for _ in range(3):
+        for n in f.local_nodes():
+            if isinstance(n, ast.For) and _free_names(n.iter) & subj:
+                for t in ast.walk(n.target):
+                    if isinstance(t, ast.Name):
+                        subj.add(t.id)
+    return subj
+
+
+def _branch_rejects(stmts: list[ast.stmt]) -> bool:
+    return bool(stmts) and isinstance(stmts[-1], ast.Raise)
+
+
+def _has_check(corpus: Corpus, f: FunctionInfo, stmts: list[ast.stmt]) -> bool:
+    wrapped = set(f.parent_func.params) if f.parent_func is not None else set()
+    for st in stmts:
+        for n in ast.walk(st):
+            if isinstance(n, ast.Raise):
+                return True
+            if isinstance(n, ast.Call) and (_is_validator_call(corpus, f, n) or (isinstance(n.func, ast.Name) and n.func.id in wrapped)):
+                return True  # a validator is applied (named, built by a combinator, or the closure's wrapped one)
+    return False
+
+
+@rule("C13.R8")
+def r8_truthiness_for_none(corpus: Corpus, rep: Report, tier: str):
+    rep.rule(
+        "C13.R8",
+        "in a validator, the bare truthiness of the validated value (or of one of its items) never decides between accepting and checking unless its type is already established: "
+        "`if not value: return` accepts 0, '', [], {} and False of any type where `value is None` was meant",
+    )
+    for fq, f in sorted(validator_candidates(corpus).items()):
+        if len(f.params) < 3:
+            continue
+        rep.saw_function(fq)
+        subj = _subjects(f)
+        cfg = get_cfg(f)
+        found = 0
+        for iff in sorted((n for n in f.local_nodes() if isinstance(n, ast.If)), key=lambda n: (n.lineno, n.col_offset)):
+            t_true = [(t.id, pol) for t, pol in flow_facts(iff.test, True) if isinstance(t, ast.Name) and t.id in subj]
+            t_false = [(t.id, pol) for t, pol in flow_facts(iff.test, False) if isinstance(t, ast.Name) and t.id in subj]
+            if not t_true and not t_false:
+                continue
+            for name in sorted({x for x, _ in t_true + t_false}):
+                found += 1
+                k = f"{fq}|truthiness of `{name}` in `if {short(iff.test, 60)}`"
+                site = f.module.site(iff)
+                typed = any(pol and isinstance(t, ast.Call) and dotted(t.func) == "isinstance" and t.args and unparse(t.args[0]) == name for t, pol in cfg.guards(iff))
+                if typed:
+                    rep.ok("C13.R8", k, site, f"the type of `{name}` is established by a dominating isinstance test: an emptiness test")
+                    continue
+                falsy_branch = None  # statements executed knowing the subject is falsy
+                truthy_only = None  # statements executed only when the subject is truthy
+                if (name, False) in t_true:
+                    falsy_branch = iff.body
+                if (name, False) in t_false:
+                    falsy_branch = iff.orelse or []
+                if (name, True) in t_true:
+                    truthy_only = iff.body
+                if (name, True) in t_false:
+                    truthy_only = iff.orelse or []
+                what = None
+                if falsy_branch is not None and not _branch_rejects(falsy_branch):
+                    what = (
+                        f"when `{name}` is falsy the branch `{short(falsy_branch[0], 40) if falsy_branch else 'fall through'}` accepts it without any type test: "
+                        "0, '', [], {} and False are accepted whatever the option's type (a `is None` test was meant)"
+                    )
+                elif truthy_only is not None and _has_check(corpus, f, truthy_only):
+                    other = iff.orelse if truthy_only is iff.body else iff.body
+                    if not _branch_rejects(other):
+                        what = f"the checks in this branch only run when `{name}` is truthy: falsy values of the wrong type (0, '', [], {{}}, False) skip them and are accepted"
+                if what:
+                    rep.violation("C13.R8", k, site, what)
+                else:
+                    rep.ok("C13.R8", k, site, "the falsy side rejects")
+        if not found:
+            rep.ok("C13.R8", f"{fq}|no truthiness test on the validated value", f.site(), f"subjects: {', '.join(sorted(subj))}")
+    rep.expect_min("C13.R8", 10, "6 custom validators and 5 combinator closures on the pinned tree")
 
 
 # ---------------------------------------------------------------------------
@@ -1646,11 +1828,18 @@ def r6_entry_points_funnel(corpus: Corpus, rep: Report, tier: str):
     rep.expect_min("C13.R6", 9, "post_init, validate_fields, validate_field, copy, 2x constructor, 2x handler, 2x omit filter")
 
 
-RULES = [r1_validator_types, r2_commit_after_validate, r3_no_raw_overwrite, r4_config_writers, r5_invalid_value_path, r6_entry_points_funnel, r7_short_circuit_consistency]
+RULES = [r1_validator_types, r2_commit_after_validate, r3_no_raw_overwrite, r4_config_writers, r5_invalid_value_path, r6_entry_points_funnel, r7_short_circuit_consistency, r8_truthiness_for_none]
 
 
 # ---------------------------------------------------------------------------
 # mutants of the current tree
+
+
+def enclosing_stmt_of(node: ast.AST) -> ast.stmt:
+    n = node
+    while not isinstance(n, ast.stmt):
+        n = parent(n)
+    return n
 
 
 def _seg(mod: Module, node: ast.AST) -> str:
@@ -1710,23 +1899,42 @@ def mutants(corpus: Corpus):
         else:
             out.append(("c13-F22-reverted-heading-anchors-optional", "F22 is not repaired on this tree (the rule fires on the tree itself)"))
 
-    # ---- R2
-    f = main.func("check_fence_as_directive")
-    body = [s for s in f.node.body if not (isinstance(s, ast.Expr) and isinstance(s.value, ast.Constant))]
-    if len(body) == 2 and isinstance(body[0], ast.Expr) and isinstance(body[1], ast.Expr):
-        out.append(Mutant("c13-fence-store-before-validation", "C13.R2", main.rel, _splice_many(main.src, [(body[0], _seg(main, body[1])), (body[1], _seg(main, body[0]))]), expect="check_fence_as_directive", canary=True))
-    f = main.func("check_url_schemes")
-    loop = next((s for s in f.node.body if isinstance(s, ast.For)), None)
-    st = next((s for s in f.node.body if isinstance(s, ast.Expr) and isinstance(s.value, ast.Call) and dotted(s.value.func) == "setattr"), None)
-    if loop is not None and st is not None and st.lineno > loop.lineno:
-        out.append(Mutant("c13-url-schemes-store-before-checks", "C13.R2", main.rel, _splice_many(main.src, [(loop, _seg(main, st) + "\n" + _indent(main, loop) + _seg(main, loop)), (st, "pass")]), expect="check_url_schemes"))
-    f = main.func("check_heading_slug_func")
-    st = find_node(f, lambda n: isinstance(n, ast.Expr) and isinstance(n.value, ast.Call) and dotted(n.value.func) == "setattr")
-    chk = find_node(f, lambda n: isinstance(n, ast.If) and "callable(" in unparse(n.test) and any(isinstance(x, ast.Raise) for x in n.body))
-    if st is not None and chk is not None and st.lineno > chk.lineno and st in f.node.body and chk in f.node.body:
-        out.append(Mutant("c13-F6-reverted-slug-func-store-before-callable-check", "C13.R2", main.rel, _splice_many(main.src, [(chk, _seg(main, st) + "\n" + _indent(main, chk) + _seg(main, chk)), (st, "pass")]), expect="check_heading_slug_func"))
+    # ---- R2 (a store-then-reject validator is only observable together with a handler that does not restore)
+    mfl = main.func("merge_file_level")
+    vcalls0 = [c for ff, c in _validate_field_calls(corpus) if ff.fq == mfl.fq]
+    restore = None
+    if vcalls0:
+        tr0 = _enclosing_try(vcalls0[0])
+        obj0, fieldvar0, val0 = _vf_args(vcalls0[0])
+        raw0, unk0 = taint(mfl, val0)
+        if tr0 is not None:
+            for st in obj_stores(mfl, obj0):
+                if st.value is not None and _expr_kind(st.value, raw0, unk0) == "clean" and any(st.node is x for hs in tr0.handlers[0].body for x in ast.walk(hs)):
+                    restore = enclosing_stmt_of(st.node)
+
+    def with_restore_dropped(edits):
+        return _splice_many(main.src, edits + [(restore, "pass")])
+
+    if restore is None:
+        out.append(("c13-store-before-reject", "merge_file_level's handler has no restoring store on this tree"))
     else:
-        out.append(("c13-F6-reverted-slug-func-store-before-callable-check", "F6 is not repaired on this tree (the rule fires on the tree itself)"))
+        f = main.func("check_fence_as_directive")
+        body = [s for s in f.node.body if not (isinstance(s, ast.Expr) and isinstance(s.value, ast.Constant))]
+        if len(body) == 2 and isinstance(body[0], ast.Expr) and isinstance(body[1], ast.Expr):
+            out.append(Mutant("c13-fence-store-before-validation+no-restore", "C13.R2", main.rel, with_restore_dropped([(body[0], _seg(main, body[1])), (body[1], _seg(main, body[0]))]), expect="check_fence_as_directive", canary=True))
+        f = main.func("check_url_schemes")
+        loop = next((s for s in f.node.body if isinstance(s, ast.For)), None)
+        st = next((s for s in f.node.body if isinstance(s, ast.Expr) and isinstance(s.value, ast.Call) and dotted(s.value.func) == "setattr"), None)
+        if loop is not None and st is not None and st.lineno > loop.lineno:
+            out.append(Mutant("c13-url-schemes-store-before-checks+no-restore", "C13.R2", main.rel, with_restore_dropped([(loop, _seg(main, st) + "\n" + _indent(main, loop) + _seg(main, loop)), (st, "pass")]), expect="check_url_schemes"))
+        f = main.func("check_heading_slug_func")
+        st = find_node(f, lambda n: isinstance(n, ast.Expr) and isinstance(n.value, ast.Call) and dotted(n.value.func) == "setattr")
+        chk = find_node(f, lambda n: isinstance(n, ast.If) and "callable(" in unparse(n.test) and any(isinstance(x, ast.Raise) for x in n.body))
+        if st is not None and chk is not None and st.lineno > chk.lineno and st in f.node.body and chk in f.node.body:
+            # fix fe114c1 reverted; on its own unobservable since e0c7e68 (the handler restores), so the restore goes too
+            out.append(Mutant("c13-F6-reverted-slug-func-store-before-callable-check+no-restore", "C13.R2", main.rel, with_restore_dropped([(chk, _seg(main, st) + "\n" + _indent(main, chk) + _seg(main, chk)), (st, "pass")]), expect="check_heading_slug_func"))
+        else:
+            out.append(("c13-F6-reverted-slug-func-store-before-callable-check+no-restore", "check_heading_slug_func no longer has the store-after-check shape"))
 
     # ---- R3 / R4 / R5 in merge_file_level
     mfl = main.func("merge_file_level")
@@ -1768,6 +1976,11 @@ def mutants(corpus: Corpus):
                 if wst.value.args:
                     out.append(Mutant("c13-handler-warning-wrong-type", "C13.R5", main.rel, splice(main.src, wst.value.args[0], "MystWarnings.DEPRECATED"), expect="MD_TOPMATTER"))
             out.append(Mutant("c13-validation-try-dropped", "C13.R5", main.rel, unwrap_try(mfl, tr), expect="not inside a try"))
+            if restore is not None:
+                out.append(Mutant("c13-handler-restore-dropped", "C13.R5", main.rel, splice(main.src, restore, "pass"), expect="stays in effect"))
+                if isinstance(restore, ast.Expr) and isinstance(restore.value, ast.Call) and len(restore.value.args) == 3:
+                    out.append(Mutant("c13-handler-restores-the-rejected-value", "C13.R5", main.rel, splice(main.src, restore.value.args[2], val), expect="stores the rejected value"))
+                out.append(Mutant("c13-handler-restore-on-one-path-only", "C13.R5", main.rel, splice(main.src, restore, "if isinstance(exc, TypeError):\n" + _indent(main, restore) + "    " + _seg(main, restore)), expect="stays in effect"))
 
     # ---- R4 elsewhere
     dm = corpus.mod("sphinx_ext.directives")
@@ -1838,4 +2051,22 @@ def mutants(corpus: Corpus):
     if iff is not None and pre is not None:
         # the container test and the member test folded into one conjunctive condition
         out.append(Mutant("c13-inventories-container-and-member-test-conjoined", "C13.R7", main.rel, splice(main.src, pre.test, "not isinstance(val, list) and not isinstance(val[0], str)"), expect="check_inventories"))
+    # ---- R8 truthiness standing in for a None / type test
+    dv = corpus.mod(DCV)
+    f = dv.func("optional._validator")
+    t = find_node(f, lambda n: isinstance(n, ast.If) and isinstance(n.test, ast.Compare) and isinstance(n.test.ops[0], ast.Is) and unparse(n.test.comparators[0]) == "None")
+    if t is not None:
+        out.append(Mutant("c13-optional-returns-on-falsy", "C13.R8", dv.rel, splice(dv.src, t.test, f"not {unparse(t.test.left)}"), expect="optional._validator"))
+    f = main.func("check_heading_slug_func")
+    t = find_node(f, lambda n: isinstance(n, ast.If) and isinstance(n.test, ast.Compare) and isinstance(n.test.ops[0], ast.Is) and unparse(n.test.comparators[0]) == "None" and n.body and isinstance(n.body[0], ast.Return))
+    if t is not None:
+        out.append(Mutant("c13-slug-func-returns-on-falsy", "C13.R8", main.rel, splice(main.src, t.test, f"not {unparse(t.test.left)}"), expect="check_heading_slug_func"))
+    f = main.func("check_url_schemes")
+    t = find_node(f, lambda n: isinstance(n, ast.If) and isinstance(n.test, ast.Compare) and isinstance(n.test.ops[0], ast.Is) and unparse(n.test.comparators[0]) == "None" and isinstance(n.test.left, ast.Name))
+    if t is not None:
+        out.append(Mutant("c13-url-scheme-item-accepted-when-falsy", "C13.R8", main.rel, splice(main.src, t.test, f"not {unparse(t.test.left)}"), expect="check_url_schemes"))
+    f = main.func("check_sub_delimiters")
+    t = find_node(f, lambda n: isinstance(n, ast.If) and any(isinstance(x, ast.Raise) for x in n.body) and f.params[2] in _free_names(n.test))
+    if t is not None:
+        out.append(Mutant("c13-sub-delimiters-checked-only-when-truthy", "C13.R8", main.rel, splice(main.src, t.test, f"{f.params[2]} and ({_seg(main, t.test)})"), expect="check_sub_delimiters"))
     return out
